@@ -226,6 +226,11 @@ from, or was evaluated while this generation was made, or carries the sentinel o
 def memberOk (mx : Bool) (parents evald : List Ind) (i : Ind) : Bool :=
   parents.contains i || evald.contains i || (refusedIn mx evald && i.fit == Fit.sentinel mx)
 
+/-- nothing that was evaluated while a generation (or an initial population) was made is
+strictly better than every member of that generation: the best observed value is never forgotten -/
+def observedOk (mx : Bool) (evald pop : List Ind) : Bool :=
+  evald.all fun e => pop.any fun o => !(better mx e o)
+
 /-- what a generation must satisfy relative to the generation it was bred from -/
 def genOk (mx : Bool) (lc : LevelCfg) (parents evald pop : List Ind) (expectedSize : Nat) : Except String Unit :=
   if pop.length != expectedSize then .error s!"generation has {pop.length} individuals, expected {expectedSize}" else
@@ -237,6 +242,8 @@ def genOk (mx : Bool) (lc : LevelCfg) (parents evald pop : List Ind) (expectedSi
   else if (lc.engine == .de || lc.engine == .shade) &&
       !(parents.all fun p => decide (countAtLeast mx p.fit parents ≤ countAtLeast mx p.fit pop)) then
     .error "one-to-one replacement violated: some order statistic got worse"
+  else if !observedOk mx evald pop then
+    .error "best observed value forgotten: an evaluated individual is strictly better than every member of the new generation"
   else .ok ()
 
 def finish (q : List Id) : Pc := if q.isEmpty then .post else .running q none
@@ -255,8 +262,8 @@ deriving Repr
 def nextChildId (t : T) (parent : Deme) : Id :=
   parent.id ++ [(t.levels.getD (parent.level + 1) []).length]
 
-/-- what the initial population of a new deme must look like -/
-def initPopOk (_mx : Bool) (lc : LevelCfg) (seed : Option Ind) (env : NewEnv) (ev : List Ind) : Except String Unit :=
+/-- shape of the initial population of a new deme -/
+def initPopShape (lc : LevelCfg) (seed : Option Ind) (env : NewEnv) (ev : List Ind) : Except String Unit :=
   if lc.engine == .localOpt then
     match seed with
     | some s =>
@@ -273,6 +280,16 @@ def initPopOk (_mx : Bool) (lc : LevelCfg) (seed : Option Ind) (env : NewEnv) (e
     | some s =>
       if !(env.pop.any fun i => i.genome == s.genome) then .error "initial population does not contain its seed"
       else .ok ()
+
+/-- what the initial population of a new deme must look like: its shape, and (population
+engines) nothing evaluated while it was built is better than all of its members -/
+def initPopOk (mx : Bool) (lc : LevelCfg) (seed : Option Ind) (env : NewEnv) (ev : List Ind) : Except String Unit :=
+  match initPopShape lc seed env ev with
+  | .error e => .error e
+  | .ok _ =>
+    if lc.engine != .localOpt && !observedOk mx ev env.pop then
+      .error "best observed value forgotten: an individual evaluated for the initial population is strictly better than every member of it"
+    else .ok ()
 
 /-- `init_from_config` + registration (`add_child`, `levels[target].append`).  The new
 deme owns its counting wrapper: its counter starts at the number of requests it issued
